@@ -173,7 +173,7 @@ def run(tier):
         report.coverage.setdefault("caps_hit", []).extend(cov["caps_hit"])
 
     if tier == "quick":
-        return e1check.run_e1(spec, tier, depth=4, state_budget=600000, time_budget=150, rule=RULE, assumptions=ASSUMPTIONS, post=post)
+        return e1check.run_e1(spec, tier, depth=4, state_budget=600000, time_budget=600, rule=RULE, assumptions=ASSUMPTIONS, post=post)
     return e1check.run_e1(spec, tier, depth=6, state_budget=3000000, time_budget=1800, rule=RULE, assumptions=ASSUMPTIONS, post=post)
 
 
